@@ -661,3 +661,178 @@ serde_json = "1"
 
 
 HANDLERS["C17"] = run_c17
+
+
+# ------------------------------------------------------------------------------------------------
+# engine E3 "fuzz": libFuzzer campaigns (thorough tiers of C04, C11, C12, C15)
+# ------------------------------------------------------------------------------------------------
+def materialise_fuzz():
+    fz = os.path.join(ws.WORK, "fuzz")
+    os.makedirs(fz, exist_ok=True)
+    with open(os.path.join(ws.HARNESS, "fuzz", "Cargo.toml.in")) as f:
+        t = f.read().replace("@REPO@", ws.REPO).replace('path = "../front"', 'path = "%s/front"' % ws.WS).replace('path = "../core"', 'path = "%s/core"' % ws.WS)
+    ws.write_if_changed(os.path.join(fz, "Cargo.toml"), t)
+    link = os.path.join(fz, "fuzz_targets")
+    want = os.path.join(ws.HARNESS, "fuzz", "fuzz_targets")
+    if os.path.islink(link) and os.readlink(link) != want:
+        os.unlink(link)
+    if not os.path.exists(link):
+        os.symlink(want, link)
+    lock = os.path.join(fz, "Cargo.lock")
+    if not os.path.exists(lock):
+        shutil.copyfile(os.path.join(ws.HARNESS, "fuzz", "Cargo.lock") if os.path.exists(os.path.join(ws.HARNESS, "fuzz", "Cargo.lock")) else os.path.join(ws.HARNESS, "Cargo.lock"), lock)
+    return fz
+
+
+def fuzz_campaign(target, prop, seed, runs, max_len, seeds=(), dict_tokens=(), timeout=7200):
+    """Build and run one libFuzzer target for a fixed number of runs from a fresh corpus.
+    Returns (stats, violations, problem)."""
+    ws.materialise()
+    fz = materialise_fuzz()
+    env = ws.cargo_env()
+    env.pop("CARGO_TARGET_DIR", None)
+    env["RUSTFLAGS"] = "--cfg peginator_verif -Awarnings"
+    t0 = time.time()
+    b = subprocess.run(["cargo", "+nightly", "fuzz", "build", "--fuzz-dir", fz, target], cwd=fz, env=env, stdout=subprocess.PIPE, stderr=subprocess.PIPE, text=True, timeout=3600)
+    if b.returncode != 0:
+        return None, [], "cargo fuzz build failed: %s" % b.stderr[-800:]
+    log("[fuzz build %s] %.1fs" % (target, time.time() - t0))
+    corpus = os.path.join(fz, "corpus_run", target)
+    arts = os.path.join(fz, "artifacts_run", target)
+    shutil.rmtree(corpus, ignore_errors=True)
+    shutil.rmtree(arts, ignore_errors=True)
+    os.makedirs(corpus)
+    os.makedirs(arts)
+    for i, s in enumerate(seeds):
+        with open(os.path.join(corpus, "seed%04d" % i), "wb") as f:
+            f.write(s if isinstance(s, bytes) else s.encode())
+    args = ["cargo", "+nightly", "fuzz", "run", "--fuzz-dir", fz, target, corpus, "--",
+            "-runs=%d" % runs, "-seed=%d" % (seed if seed != 0 else 1), "-len_control=0", "-timeout=25", "-max_len=%d" % max_len,
+            "-artifact_prefix=%s/" % arts, "-print_final_stats=1"]
+    if dict_tokens:
+        dp = os.path.join(fz, "%s.dict" % target)
+        with open(dp, "w") as f:
+            for tkn in dict_tokens:
+                enc = "".join(("\\\\" if ch == "\\" else '\\"' if ch == '"' else ch if 32 <= ord(ch) < 127 else "".join("\\x%02X" % b for b in ch.encode())) for ch in tkn)
+                f.write('"%s"\n' % enc)
+        args.append("-dict=%s" % dp)
+    out_json = os.path.join(fz, "violation_%s.json" % target)
+    if os.path.exists(out_json):
+        os.unlink(out_json)
+    env["VERIF_FUZZ_OUT"] = out_json
+    t0 = time.time()
+    try:
+        r = subprocess.run(args, cwd=fz, env=env, stdout=subprocess.PIPE, stderr=subprocess.PIPE, text=True, timeout=timeout)
+    except subprocess.TimeoutExpired:
+        return None, [], "fuzz campaign %s exceeded its wall-clock budget (inconclusive)" % target
+    err = r.stderr
+    stats = dict(target=target, runs_requested=runs, wall_s=round(time.time() - t0, 1))
+    for line in err.splitlines():
+        if line.startswith("stat::"):
+            k, v = line[6:].split(":")
+            stats[k.strip()] = int(v.strip())
+        if "cov:" in line and "ft:" in line:
+            try:
+                stats["cov"] = int(line.split("cov:")[1].split()[0])
+                stats["ft"] = int(line.split("ft:")[1].split()[0])
+            except Exception:
+                pass
+    stats["corpus_files"] = len(os.listdir(corpus))
+    violations = []
+    crash_files = sorted(os.listdir(arts))
+    if os.path.exists(out_json):
+        with open(out_json) as f:
+            violations.append(json.load(f))
+    elif crash_files:
+        # a crash without an oracle record: abort / stack overflow / libFuzzer timeout inside the tested code
+        cf = os.path.join(arts, crash_files[0])
+        with open(cf, "rb") as f:
+            data = f.read()
+        kind = "timeout" if crash_files[0].startswith("timeout") else "crash"
+        keep = os.path.join(ws.VERIF, "replays", "new") if ws.TAG == "main" else os.path.join(ws.WORK, "replays_new")
+        os.makedirs(keep, exist_ok=True)
+        kept = os.path.join(keep, "%s_%s_%s" % (prop, target, crash_files[0][:40]))
+        shutil.copyfile(cf, kept)
+        violations.append(dict(property=prop, kind="fuzz_" + kind, signature="Fuzz:%s:%s" % (target, kind), artifact=kept,
+                               text=data.decode("utf-8", "replace")[:2000],
+                               message="libFuzzer target %s: %s without an oracle record (process death or hang inside the tested code); input saved" % (target, kind),
+                               expected="code or error value", observed=err[-600:]))
+    elif r.returncode != 0:
+        return stats, [], "fuzz run %s failed: %s" % (target, err[-600:])
+    return stats, violations, None
+
+
+def with_fuzz(handler, target, prop, runs, max_len, seed_fn=None, dict_tokens=()):
+    """thorough tier = the in-process handler + a coverage-guided campaign; violations of the campaign are reported through a second finish() pass"""
+    def h(prop_, tier, seed):
+        rc = handler(prop_, tier, seed)
+        if tier != "thorough" or rc == 1:
+            return rc
+        main = _main()
+        t0 = time.time()
+        seeds = seed_fn() if seed_fn else []
+        stats, violations, problem = fuzz_campaign(target, prop, seed, runs, max_len, seeds, dict_tokens)
+        evp = os.path.join(ws.VERIF, "evidence", prop + ".json") if ws.TAG == "main" else os.path.join(ws.WORK, "evidence", prop + ".json")
+        try:
+            with open(evp) as f:
+                ev = json.load(f)
+        except Exception:
+            return rc
+        cov = ev["coverage"]
+        if stats:
+            cov["fuzz_campaign"] = stats
+            cov["evaluations"] += stats.get("number_of_executed_units", 0)
+        if problem:
+            cov["fuzz_campaign_problem"] = problem
+        known = main.load_known()
+        new = [v for v in violations if main.match_known(known, prop, v) is None]
+        for v in new:
+            path = main.write_replay(prop, v)
+            print("VIOLATION property=%s replay=%s" % (prop, path))
+            log("  " + (v.get("message") or "")[:300])
+        ev["violations"] = ev.get("violations", 0) + len(new)
+        ev["wall_s"] = round(ev.get("wall_s", 0) + time.time() - t0, 2)
+        with open(evp, "w") as f:
+            json.dump(ev, f, indent=1, ensure_ascii=False)
+        if new:
+            return 1
+        if problem and rc == 0:
+            log("INCONCLUSIVE (fuzz part): " + problem)
+            return 2
+        return rc
+    return h
+
+
+GRAMMAR_TOKENS = ["@export", "@string", "@char", "@no_skip_ws", "@position", "@memoize", "@leftrec", "@check(", "@extern(", "->", "::", "..", "@:", "}+",
+                  "\\u{", "\\x", "\\U00", "\\u", "i'", "i\"", "Whitespace", "char", ";\n", " = ", " | ", ">", "!", "&", "$", "*"]
+
+
+def repo_grammar_seeds():
+    out = []
+    for root, dirs, files in os.walk(ws.REPO):
+        dirs[:] = [d for d in dirs if d not in ("target", ".git")]
+        for fn in files:
+            if fn.endswith(".ebnf") or fn.endswith(".not_ebnf"):
+                try:
+                    with open(os.path.join(root, fn), "rb") as f:
+                        out.append(f.read())
+                except OSError:
+                    pass
+    # plus generated texts of all classes
+    d = os.path.join(ws.WORK, "fuzzseeds")
+    shutil.rmtree(d, ignore_errors=True)
+    subprocess.run([ws.tool("front"), "texts", "--seed", "1", "--cases", "300", "--dir", d], check=False)
+    try:
+        with open(os.path.join(d, "texts.json")) as f:
+            for t in json.load(f):
+                if t["class"] != "Nesting" and len(t["text"]) < 1500:
+                    out.append(t["text"].encode())
+    except Exception:
+        pass
+    shutil.rmtree(d, ignore_errors=True)
+    return out
+
+
+HANDLERS["C11"] = with_fuzz(HANDLERS["C11"], "fz_pretty", "C11", 3000000, 400, lambda: [b"\x00\x00\x00a\nb", b"\xff\xff\x01\xc3\xa9\r\n\n", b"\x80\x00\x02"])
+HANDLERS["C12"] = with_fuzz(HANDLERS["C12"], "fz_frontend", "C12", 300000, 900)
+HANDLERS["C15"] = with_fuzz(HANDLERS["C15"], "fz_total", "C15", 400000, 1200, repo_grammar_seeds, GRAMMAR_TOKENS)
